@@ -99,9 +99,13 @@ class ChoiceProbe:
         self._orig_bin = im.binning.deterministic_choice
         real = self._orig_bin
 
-        def wrapper(input_id, population, weights=None, *, cum_weights=None):
-            r = real(input_id, population, weights, cum_weights=cum_weights)
+        def wrapper(*args, **kwargs):
+            # signature-agnostic: a refactoring of the call shape must not turn the probe into a fault
+            r = real(*args, **kwargs)
             self.calls += 1
+            input_id = args[0] if args else kwargs.get("input_id")
+            population = args[1] if len(args) > 1 else kwargs.get("population")
+            weights = args[2] if len(args) > 2 else kwargs.get("weights", kwargs.get("cum_weights"))
             self.last = (input_id, population, weights, r)
             if len(self.log) < self.keep:
                 self.log.append(self.last)
@@ -136,13 +140,14 @@ class ProbaProbe:
         self._orig = im.binning.deterministic_proba
         real = self._orig
 
-        def wrapper(input_string):
+        def wrapper(*args, **kwargs):
             self.calls += 1
-            self.last_key = input_string
+            one_str = len(args) == 1 and not kwargs and isinstance(args[0], str)
+            self.last_key = args[0] if one_str else None
             if self.inject is not None:
                 self.last_u = self.inject
                 return self.inject
-            u = real(input_string)
+            u = real(*args, **kwargs)
             self.last_u = u
             return u
 
@@ -173,6 +178,11 @@ def callable_name(c):
 
     if isinstance(c, functools.partial):
         return "partial-object:" + callable_name(c.func)
+    code = getattr(c, "__code__", None)
+    if code is not None and getattr(code, "co_filename", None) == "<string>":
+        # a function / generator expression defined by generated code itself: its qualified name embeds the
+        # experiment's name, which is not structure
+        return "function-defined-by-generated-code"
     mod = getattr(c, "__module__", None)
     qn = getattr(c, "__qualname__", None) or getattr(c, "__name__", None)
     if qn is None:
